@@ -163,7 +163,8 @@ theorem patchDict_table (obj : List (String × J)) (hobj : DK obj) (di : List (S
 
 /-- every entry of the table is applicable to `a` and turns its key into what `b` holds there -/
 def GoodT (a b : List (String × J)) (di : List (String × Op)) : Prop :=
-  SK di ∧ ∀ k e, lookupKV k di = some e → e.skey = k ∧ e.isMapOp = true ∧ mapEff a e = some (lookupKV k b)
+  SK di ∧ ∀ k e, lookupKV k di = some e → e.skey = k ∧ e.isMapOp = true ∧ mapEff a e = some (lookupKV k b) ∧
+    ((lookupKV k a).isSome = true ∨ (lookupKV k b).isSome = true)
 
 /-- key `k` has been dealt with: no entry means `a` and `b` agree there -/
 def Handled (a b : List (String × J)) (di : List (String × Op)) (k : String) : Prop :=
@@ -171,6 +172,7 @@ def Handled (a b : List (String × J)) (di : List (String × Op)) (k : String) :
 
 theorem mapAppend_good (a b : List (String × J)) (di di' : List (String × Op)) (e : Op)
     (hg : GoodT a b di) (heff : mapEff a e = some (lookupKV e.skey b))
+    (hin : (lookupKV e.skey a).isSome = true ∨ (lookupKV e.skey b).isSome = true)
     (h : mapAppend di e = .ok di') :
     GoodT a b di' ∧ lookupKV e.skey di' = some e ∧ ∀ k, k ≠ e.skey → lookupKV k di' = lookupKV k di := by
   unfold mapAppend at h
@@ -185,7 +187,7 @@ theorem mapAppend_good (a b : List (String × J)) (di di' : List (String × Op))
       by_cases hk : k = e.skey
       · simp only [hk, if_true, Option.some.injEq] at hl
         subst hl
-        exact ⟨hk.symm, h1, by rw [hk]; exact heff⟩
+        exact ⟨hk.symm, h1, by rw [hk]; exact heff, by rw [hk]; exact hin⟩
       · simp only [hk, if_false] at hl
         exact hg.2 k e' hl
   · simp [h1] at h
@@ -314,7 +316,8 @@ theorem dictBothStep_good (recur : Recur) (cfg : Cfg) (path : String) (a b : Lis
   have appended : ∀ e : Op, e.skey = k → mapEff a e = some (some bv) → mapAppend di e = .ok di' →
       GoodT a b di' ∧ Handled a b di' k ∧ ∀ k', Handled a b di k' → Handled a b di' k' := by
     intro e hek heff hm
-    obtain ⟨g1, g2, g3⟩ := mapAppend_good a b di di' e hg (by rw [hek, hb]; exact heff) hm
+    obtain ⟨g1, g2, g3⟩ := mapAppend_good a b di di' e hg (by rw [hek, hb]; exact heff)
+      (by rw [hek, ha]; exact Or.inl rfl) hm
     rw [hek] at g2 g3
     exact ⟨g1, Handled.of_some g2, fun k' hk' => hk'.insert k g3 (by rw [g2]; rfl)⟩
   split at h
@@ -357,11 +360,145 @@ theorem none_of_not_mem_keys {α} (k : String) (l : List (String × α)) (h : k 
 theorem isSome_false {α} {o : Option α} (h : o.isSome = false) : o = none := by
   cases o <;> simp_all
 
-theorem diffDicts_roundtrip (recur : Recur) (cfg : Cfg) (path : String) (a b : List (String × J))
-    (ha : SK a) (hb : SK b) (hrec : DictRecOK recur cfg path a b) (hpy : PyStrict a b)
-    (d : List Op) (h : diffDicts recur cfg path a b = .ok d) : patchDict a d [] [] = .ok b := by
+/-- applying a good table in which every key of `a` or `b` is handled rebuilds `b` -/
+theorem table_apply (a b : List (String × J)) (ha : SK a) (hb : SK b) (di : List (String × Op))
+    (hg : GoodT a b di) (hall : ∀ k, lookupKV k di = none → lookupKV k a = lookupKV k b) :
+    patchDict a (mapValidated di) [] [] = .ok b := by
+  obtain ⟨R, r1, r2, r3⟩ := patchDict_table a ha.dk di [] [] hg.1.dk
+    (by
+      intro p hp
+      obtain ⟨k, e⟩ := p
+      have hl := lookupKV_of_mem k e di hg.1.dk hp
+      obtain ⟨e1, e2, e3, _⟩ := hg.2 k e hl
+      exact ⟨e1, e2, by rw [e3]; rfl⟩)
+    (by intro p _; exact ⟨rfl, rfl⟩)
+  unfold mapValidated
+  rw [r1]
+  congr 1
+  apply sk_ext R b r2 hb
+  intro k
+  rw [r3 k]
+  cases hl : lookupKV k di with
+  | none =>
+    simp only [hasKey, lookupKV_nil, Option.isSome_none, Bool.false_eq_true, if_false, List.contains_nil]
+    exact hall k hl
+  | some e =>
+    obtain ⟨_, _, e3, _⟩ := hg.2 k e hl
+    simp [e3]
+
+/-- the three key classes of `diff_dicts` / `diff_mime_bundle` / `diff_attachments` -/
+structure KeyClasses (a b : List (String × J)) (rem both add : List String) : Prop where
+  rem_sound : ∀ x ∈ rem, (lookupKV x a).isSome = true ∧ lookupKV x b = none
+  both_sound : ∀ x ∈ both, (lookupKV x a).isSome = true ∧ (lookupKV x b).isSome = true
+  add_sound : ∀ x ∈ add, lookupKV x a = none ∧ (lookupKV x b).isSome = true
+  rem_complete : ∀ k, (lookupKV k a).isSome = true → lookupKV k b = none → k ∈ rem
+  both_complete : ∀ k, (lookupKV k a).isSome = true → (lookupKV k b).isSome = true → k ∈ both
+  add_complete : ∀ k, lookupKV k a = none → (lookupKV k b).isSome = true → k ∈ add
+
+theorem listDiffKeys_spec (a b : List (String × J)) :
+    KeyClasses a b (listDiffKeys a b).1 (listDiffKeys a b).2.1 (listDiffKeys a b).2.2 := by
+  unfold listDiffKeys
+  constructor
+  · intro x hx
+    simp only [mem_sortStrs, List.mem_filter, Bool.not_eq_true', contains_keys_iff] at hx
+    exact ⟨(mem_keys_iff x a).mp hx.1, isSome_false hx.2⟩
+  · intro x hx
+    simp only [mem_sortStrs, List.mem_filter, contains_keys_iff] at hx
+    exact ⟨(mem_keys_iff x a).mp hx.1, hx.2⟩
+  · intro x hx
+    simp only [mem_sortStrs, List.mem_filter, Bool.not_eq_true', contains_keys_iff] at hx
+    exact ⟨isSome_false hx.2, (mem_keys_iff x b).mp hx.1⟩
+  · intro k h1 h2
+    simp only [mem_sortStrs, List.mem_filter, Bool.not_eq_true', contains_keys_iff]
+    exact ⟨(mem_keys_iff k a).mpr h1, by rw [h2]; rfl⟩
+  · intro k h1 h2
+    simp only [mem_sortStrs, List.mem_filter, contains_keys_iff]
+    exact ⟨(mem_keys_iff k a).mpr h1, h2⟩
+  · intro k h1 h2
+    simp only [mem_sortStrs, List.mem_filter, Bool.not_eq_true', contains_keys_iff]
+    exact ⟨(mem_keys_iff k b).mpr h2, by rw [h1]; rfl⟩
+
+/-- what the step for a common key must guarantee -/
+def BothStepOK (a b : List (String × J)) (F : List (String × Op) → String → Except Err (List (String × Op))) : Prop :=
+  ∀ s x s' av bv, lookupKV x a = some av → lookupKV x b = some bv → GoodT a b s → F s x = .ok s' →
+    GoodT a b s' ∧ Handled a b s' x ∧ ∀ k', Handled a b s k' → Handled a b s' k'
+
+/-- the three folds (removed keys, common keys through `F`, added keys): a good table in which every key of
+    `a` or `b` is handled -/
+theorem threeFold_table (a b : List (String × J)) (rem both add : List String) (hk : KeyClasses a b rem both add)
+    (F : List (String × Op) → String → Except Err (List (String × Op))) (hF : BothStepOK a b F)
+    (di1 di2 di3 : List (String × Op))
+    (h1 : rem.foldlM (fun di k => mapAppend di (.remove k)) ([] : List (String × Op)) = .ok di1)
+    (h2 : both.foldlM F di1 = .ok di2)
+    (h3 : add.foldlM (fun di k => mapAppend di (.add k ((lookupKV k b).getD .null))) di2 = .ok di3) :
+    GoodT a b di3 ∧ ∀ k, lookupKV k di3 = none → lookupKV k a = lookupKV k b := by
+  have g0 : GoodT a b [] := ⟨by simp [SK], fun k e hl => by simp [lookupKV] at hl⟩
+  obtain ⟨g1, hd1, _⟩ := foldlM_handled (fun di k => mapAppend di (.remove k)) (GoodT a b) (Handled a b) rem
+    (fun k => (lookupKV k a).isSome = true ∧ lookupKV k b = none) hk.rem_sound
+    (by
+      intro s x s' hc hP hf
+      obtain ⟨g1, g2, g3⟩ := mapAppend_good a b s s' (.remove x) hP (by simp [mapEff, Op.skey, hc.2])
+        (Or.inl hc.1) hf
+      simp only [Op.skey] at g2 g3
+      exact ⟨g1, Handled.of_some g2, fun k hk => hk.insert x g3 (by rw [g2]; rfl)⟩)
+    [] di1 g0 h1
+  obtain ⟨g2, hd2, keep2⟩ := foldlM_handled F (GoodT a b) (Handled a b) both
+    (fun k => (lookupKV k a).isSome = true ∧ (lookupKV k b).isSome = true) hk.both_sound
+    (by
+      intro s x s' hc hP hf
+      obtain ⟨c1, c2⟩ := hc
+      cases hla : lookupKV x a with
+      | none => rw [hla] at c1; cases c1
+      | some av =>
+        cases hlb : lookupKV x b with
+        | none => rw [hlb] at c2; cases c2
+        | some bv => exact hF s x s' av bv hla hlb hP hf)
+    di1 di2 g1 h2
+  obtain ⟨g3, hd3, keep3⟩ := foldlM_handled (fun di k => mapAppend di (.add k ((lookupKV k b).getD .null)))
+    (GoodT a b) (Handled a b) add
+    (fun k => lookupKV k a = none ∧ (lookupKV k b).isSome = true) hk.add_sound
+    (by
+      intro s x s' hc hP hf
+      obtain ⟨c1, c2⟩ := hc
+      cases hlb : lookupKV x b with
+      | none => rw [hlb] at c2; cases c2
+      | some bv =>
+        rw [hlb] at hf
+        simp only [Option.getD_some] at hf
+        have hk' : hasKey x a = false := by simp [hasKey, c1]
+        obtain ⟨g1, g2, g3⟩ := mapAppend_good a b s s' (.add x bv) hP (by simp [mapEff, Op.skey, hk', hlb])
+          (Or.inr (by simp [Op.skey, hlb])) hf
+        simp only [Op.skey] at g2 g3
+        exact ⟨g1, Handled.of_some g2, fun k hk => hk.insert x g3 (by rw [g2]; rfl)⟩)
+    di2 di3 g2 h3
+  refine ⟨g3, ?_⟩
+  intro k hn
+  cases hla : lookupKV k a with
+  | none =>
+    cases hlb : lookupKV k b with
+    | none => rfl
+    | some bv =>
+      have := hd3 k (hk.add_complete k hla (by rw [hlb]; rfl)) hn
+      rw [hla, hlb] at this; exact this
+  | some av =>
+    cases hlb : lookupKV k b with
+    | none =>
+      have := keep3 k (keep2 k (hd1 k (hk.rem_complete k (by rw [hla]; rfl) hlb))) hn
+      rw [hla, hlb] at this; exact this
+    | some bv =>
+      have := keep3 k (hd2 k (hk.both_complete k (by rw [hla]; rfl) (by rw [hlb]; rfl))) hn
+      rw [hla, hlb] at this; exact this
+
+/-- the table `diff_dicts` returns: good, and every key of `a` or `b` handled -/
+theorem diffDicts_table (recur : Recur) (cfg : Cfg) (path : String) (a b : List (String × J))
+    (hrec : DictRecOK recur cfg path a b) (hpy : PyStrict a b)
+    (d : List Op) (h : diffDicts recur cfg path a b = .ok d) :
+    ∃ di, d = mapValidated di ∧ GoodT a b di ∧ ∀ k, lookupKV k di = none → lookupKV k a = lookupKV k b := by
   unfold diffDicts at h
-  simp only [listDiffKeys, bind, Except.bind, pure, Except.pure] at h
+  have hk := listDiffKeys_spec a b
+  generalize listDiffKeys a b = t at h hk
+  obtain ⟨rem, both, add⟩ := t
+  simp only [bind, Except.bind, pure, Except.pure] at h hk
   split at h
   · cases h
   · rename_i di1 h1
@@ -373,109 +510,15 @@ theorem diffDicts_roundtrip (recur : Recur) (cfg : Cfg) (path : String) (a b : L
       · rename_i di3 h3
         simp only [Except.ok.injEq] at h
         subst h
-        have g0 : GoodT a b [] := ⟨by simp [SK], fun k e hl => by simp [lookupKV] at hl⟩
-        -- removed keys
-        obtain ⟨g1, hd1, _⟩ := foldlM_handled (fun di k => mapAppend di (.remove k)) (GoodT a b) (Handled a b) _
-          (fun k => (lookupKV k a).isSome = true ∧ lookupKV k b = none)
-          (by
-            intro x hx
-            rw [mem_sortStrs] at hx
-            simp only [List.mem_filter, Bool.not_eq_true', contains_keys_iff] at hx
-            exact ⟨(mem_keys_iff x a).mp hx.1, isSome_false hx.2⟩)
-          (by
-            intro s x s' hc hP hf
-            obtain ⟨g1, g2, g3⟩ := mapAppend_good a b s s' (.remove x) hP (by simp [mapEff, Op.skey, hc.2]) hf
-            simp only [Op.skey] at g2 g3
-            exact ⟨g1, Handled.of_some g2, fun k hk => hk.insert x g3 (by rw [g2]; rfl)⟩)
-          [] di1 g0 h1
-        -- common keys
-        obtain ⟨g2, hd2, keep2⟩ := foldlM_handled (dictBothStep recur cfg path a b) (GoodT a b) (Handled a b) _
-          (fun k => (lookupKV k a).isSome = true ∧ (lookupKV k b).isSome = true)
-          (by
-            intro x hx
-            rw [mem_sortStrs] at hx
-            simp only [List.mem_filter, contains_keys_iff] at hx
-            exact ⟨(mem_keys_iff x a).mp hx.1, hx.2⟩)
-          (by
-            intro s x s' hc hP hf
-            obtain ⟨c1, c2⟩ := hc
-            cases hla : lookupKV x a with
-            | none => rw [hla] at c1; cases c1
-            | some av =>
-              cases hlb : lookupKV x b with
-              | none => rw [hlb] at c2; cases c2
-              | some bv => exact dictBothStep_good recur cfg path a b hrec hpy s s' x av bv hla hlb hP hf)
-          di1 di2 g1 h2
-        -- added keys
-        obtain ⟨g3, hd3, keep3⟩ := foldlM_handled (fun di k => mapAppend di (.add k ((lookupKV k b).getD .null)))
-          (GoodT a b) (Handled a b) _
-          (fun k => lookupKV k a = none ∧ (lookupKV k b).isSome = true)
-          (by
-            intro x hx
-            rw [mem_sortStrs] at hx
-            simp only [List.mem_filter, Bool.not_eq_true', contains_keys_iff] at hx
-            exact ⟨isSome_false hx.2, (mem_keys_iff x b).mp hx.1⟩)
-          (by
-            intro s x s' hc hP hf
-            obtain ⟨c1, c2⟩ := hc
-            cases hlb : lookupKV x b with
-            | none => rw [hlb] at c2; cases c2
-            | some bv =>
-              rw [hlb] at hf
-              simp only [Option.getD_some] at hf
-              have hk : hasKey x a = false := by simp [hasKey, c1]
-              obtain ⟨g1, g2, g3⟩ := mapAppend_good a b s s' (.add x bv) hP (by simp [mapEff, Op.skey, hk, hlb]) hf
-              simp only [Op.skey] at g2 g3
-              exact ⟨g1, Handled.of_some g2, fun k hk => hk.insert x g3 (by rw [g2]; rfl)⟩)
-          di2 di3 g2 h3
-        -- every key of `a` or `b` is handled in the final table
-        have hall : ∀ k, lookupKV k di3 = none → lookupKV k a = lookupKV k b := by
-          intro k hn
-          cases hla : lookupKV k a with
-          | none =>
-            cases hlb : lookupKV k b with
-            | none => rfl
-            | some bv =>
-              have := hd3 k (by
-                rw [mem_sortStrs]
-                simp only [List.mem_filter, Bool.not_eq_true', contains_keys_iff]
-                exact ⟨(mem_keys_iff k b).mpr (by rw [hlb]; rfl), by rw [hla]; rfl⟩) hn
-              rw [hla, hlb] at this; exact this
-          | some av =>
-            cases hlb : lookupKV k b with
-            | none =>
-              have := keep3 k (keep2 k (hd1 k (by
-                rw [mem_sortStrs]
-                simp only [List.mem_filter, Bool.not_eq_true', contains_keys_iff]
-                exact ⟨(mem_keys_iff k a).mpr (by rw [hla]; rfl), by rw [hlb]; rfl⟩))) hn
-              rw [hla, hlb] at this; exact this
-            | some bv =>
-              have := keep3 k (hd2 k (by
-                rw [mem_sortStrs]
-                simp only [List.mem_filter, contains_keys_iff]
-                exact ⟨(mem_keys_iff k a).mpr (by rw [hla]; rfl), by rw [hlb]; rfl⟩)) hn
-              rw [hla, hlb] at this; exact this
-        -- apply the table
-        obtain ⟨R, r1, r2, r3⟩ := patchDict_table a ha.dk di3 [] [] g3.1.dk
-          (by
-            intro p hp
-            obtain ⟨k, e⟩ := p
-            have hl := lookupKV_of_mem k e di3 g3.1.dk hp
-            obtain ⟨e1, e2, e3⟩ := g3.2 k e hl
-            exact ⟨e1, e2, by rw [e3]; rfl⟩)
-          (by intro p _; exact ⟨rfl, rfl⟩)
-        unfold mapValidated
-        rw [r1]
-        congr 1
-        apply sk_ext R b r2 hb
-        intro k
-        rw [r3 k]
-        cases hl : lookupKV k di3 with
-        | none =>
-          simp only [hasKey, lookupKV_nil, Option.isSome_none, Bool.false_eq_true, if_false, List.contains_nil]
-          exact hall k hl
-        | some e =>
-          obtain ⟨_, _, e3⟩ := g3.2 k e hl
-          simp [e3]
+        obtain ⟨g, hall⟩ := threeFold_table a b rem both add hk (dictBothStep recur cfg path a b)
+          (fun s x s' av bv ha hb hg hf => dictBothStep_good recur cfg path a b hrec hpy s s' x av bv ha hb hg hf)
+          di1 di2 di3 h1 h2 h3
+        exact ⟨di3, rfl, g, hall⟩
+
+theorem diffDicts_roundtrip (recur : Recur) (cfg : Cfg) (path : String) (a b : List (String × J))
+    (ha : SK a) (hb : SK b) (hrec : DictRecOK recur cfg path a b) (hpy : PyStrict a b)
+    (d : List Op) (h : diffDicts recur cfg path a b = .ok d) : patchDict a d [] [] = .ok b := by
+  obtain ⟨di, rfl, hg, hall⟩ := diffDicts_table recur cfg path a b hrec hpy d h
+  exact table_apply a b ha hb di hg hall
 
 end Nbdime
